@@ -108,8 +108,35 @@ def st_request_seq(cfgspecs, knobs, base_dir, reuse_object=False):
     prev_spec = None
     cfg = None
     with sdisk.Installed(dk, _clock(knobs)), smem.Installed(knobs.get("mem", 0)):
+        last = None
         for cs in cfgspecs:
             bd = base_dir
+            if isinstance(cs, list) and cs and cs[0] == "damage":
+                # the file under the cache name is damaged while the process lives on
+                fns = sorted(os.listdir(base_dir)) if os.path.isdir(base_dir) else []
+                if fns:
+                    pth = os.path.join(base_dir, fns[0])
+                    with open(pth, "rb") as f:
+                        b = bytearray(f.read())
+                    a = cs[1]
+                    if b:
+                        if a["kind"] == "trunc":
+                            b = b[: a["at"] % len(b)]
+                        else:
+                            b[a["at"] % len(b)] ^= a["mask"]
+                    with open(pth, "wb") as f:
+                        f.write(bytes(b))
+                    outs.append({"kind": "damaged", "image": bytes(b).hex()})
+                else:
+                    outs.append({"kind": "damaged", "image": None})
+                continue
+            if isinstance(cs, list) and cs and cs[0] == "mutate-last":
+                # the caller edits the dataset it was handed (its own object): later requests must not see the edit
+                if last is not None and len(last.mazes) > 0:
+                    last.mazes.pop()
+                    last.update_self_config()
+                outs.append({"kind": "mutated"})
+                continue
             if isinstance(cs, list):  # [cfgspec, directory]
                 cs, bd = cs
             if reuse_object and cfg is not None and prev_spec is not None and {k: v for k, v in cs.items() if k != "n_mazes"} == {k: v for k, v in prev_spec.items() if k != "n_mazes"}:
@@ -117,7 +144,14 @@ def st_request_seq(cfgspecs, knobs, base_dir, reuse_object=False):
             else:
                 cfg = _ds.make_cfg(cs)
             prev_spec = cs
-            out = _ds.outcome_of(lambda: MazeDataset.from_config(cfg, local_base_path=bd, zanj=_zanj(knobs), **flags))
+            holder = {}
+
+            def _req():
+                holder["ds"] = MazeDataset.from_config(cfg, local_base_path=bd, zanj=_zanj(knobs), **flags)
+                return holder["ds"]
+
+            out = _ds.outcome_of(_req)
+            last = holder.get("ds")
             out["files"] = sorted(os.listdir(bd)) if os.path.isdir(bd) else None
             outs.append(out)
         dk.finalize()
@@ -348,6 +382,8 @@ def run_scenario(base: Base, sc: dict, idx: int) -> dict:
             v = base.judge(out, F, dd, kind)
         elif kind == "shared-dir":
             return run_shared_dir(base, sc, d, log, stats)
+        elif kind == "warm-history":
+            return run_warm_history(base, sc, d, log, stats)
         elif kind == "history":
             return run_history(base, sc, d, log, stats)
         else:
@@ -388,6 +424,46 @@ def _probes(base: Base, sc, stats):
         lost = set(sc["lost"])
         if (len(W) - 1) not in lost and any(i < len(W) - 3 for i in lost):
             stats["probe_eocd_complete_but_member_write_lost"] = 1
+
+
+def run_warm_history(base: Base, sc, d, log, stats):
+    """ONE process lifetime: request (generates and saves), request (served from the file), then either the file is damaged
+    or the caller edits the dataset it was handed, then two more requests.  Whatever the library keeps in memory between
+    requests must not stand in for the file: the request after the damage regenerates, returns fresh data and repairs the
+    file; the request after the caller's edit returns the stored dataset, not the edited object."""
+    os.makedirs(d)
+    mid = ["damage", sc["damage"]] if sc.get("damage") else ["mutate-last"]
+    outs = core.stage(st_request_seq, [base.cfg, base.cfg, mid, base.cfg, base.cfg], base.knobs, d)
+    log.add("warm-history", mid, [o.get("kind") for o in outs])
+    stats["warm_history_" + mid[0]] = 1
+    F = None
+    for i, o in enumerate(outs):
+        if o["kind"] in ("damaged", "mutated"):
+            if o["kind"] == "damaged" and o.get("image") is not None:
+                F = bytes.fromhex(o["image"])
+            continue
+        what = f"[warm-history:{mid[0]}] request #{i + 1} in one process"
+        if i == 3 and mid[0] == "damage":
+            v = base.judge(o, F, d, what)
+        else:
+            # every other request: the own intact file (or none yet): fresh data, or the conformant raise of DESIGN 6.2
+            if o["kind"] == "returned" and o["model"]["mazes"] != base.fresh["mazes"]:
+                v = ("C11.wrong-data", f"{what} returned {len(o['model']['mazes'])} mazes that are not the dataset of the requested configuration ({len(base.fresh['mazes'])} mazes)" + (" - it reflects an edit the caller made to the object returned by an earlier request" if mid[0] == "mutate-last" and i >= 3 else ""))
+            elif o["kind"] == "raised" and not (i >= 1 and base.control == "raised"):
+                v = ("C11.valid-cache-raises", f"{what} raised {o.get('exc')}: {o.get('msg', '')[:160]}")
+            else:
+                v = None
+        if v:
+            return core.violation(v[0], v[1], log, stats=stats)
+    # what is left behind must be loadable and hold the requested dataset
+    files = sorted(os.listdir(d))
+    if len(files) != 1:
+        return core.violation("C11.leaves-loadable-file", f"[warm-history:{mid[0]}] the cache directory holds {files}", log, stats=stats)
+    rb = core.stage(st_readback, os.path.join(d, files[0]))
+    if rb["kind"] != "returned" or rb["model"]["mazes"] != base.fresh["mazes"]:
+        return core.violation("C11.leaves-loadable-file", f"[warm-history:{mid[0]}] the file left behind after a process that kept requesting the configuration does not hold its dataset ({rb.get('exc', rb['kind'])})", log, stats=stats)
+    shutil.rmtree(d, ignore_errors=True)
+    return core.ok(log, stats=stats, nontrivial=log.digest())
 
 
 def run_shared_dir(base: Base, sc, d, log, stats):
@@ -761,6 +837,10 @@ def scenarios_for(rng: random.Random, R: dict, layout: dict, tier: str) -> list:
     sc += [{"kind": "shared-dir", "field": x["field"], "cfg": x["cfg"], "same_process": rng.random() < 0.5, "rounds": 3 if rng.random() < 0.2 else 1} for x in fv if x["kind"] == "foreign"]
     # ... and a caller that keeps one configuration object and only re-assigns its maze count between requests
     sc += [{"kind": "shared-dir", "field": "n_mazes-reassigned", "cfg": x["cfg"], "same_process": True, "reuse_object": True} for x in fv if x["kind"] == "foreign" and x["field"] == "n_mazes"]
+    # one process that keeps requesting the configuration while the file is damaged under it / while it edits what it was given
+    for _ in range(4 if tier == "quick" else 24):
+        sc.append({"kind": "warm-history", "damage": rng.choice([{"kind": "trunc", "at": rng.randrange(size)}, {"kind": "flip", "at": rng.randrange(size), "mask": rng.choice([1, 0x80, 0xFF])}])})
+    sc.append({"kind": "warm-history", "damage": None})
     if R.get("applied_filters"):
         sc += [{"kind": "shared-dir", "field": "n_mazes-survivors", "cfg": None, "same_process": sp} for sp in (False, True)]
     # multi-fault histories
